@@ -254,7 +254,13 @@ def _str_escape(s: str) -> str:
     return s
 
 def _bytes_escape(b: bytes) -> str:
-    return repr(b)[2:-1]
+    r = repr(b)
+    s = r[2:-1]
+    if r[1] == '"':
+        # repr() uses double quotes when the value contains single quotes only,
+        # but we always enclose the value in single quotes: escape them.
+        s = s.replace("'", "\\'")
+    return s
 
 class PyvalColorizer:
     """
